@@ -7,8 +7,11 @@
 // container packages and builds its harness against that copy.
 //
 // Scheduling points are: the arrival at Lock (before the writer announces
-// itself), the acquisition of a Lock that was busy on arrival, and the
-// acquisition of RLock / Mutex.Lock. A call counts as started at its first
+// itself), the acquisition of a Lock that was busy on arrival, the
+// acquisition of RLock / Mutex.Lock, every operation of the sync/atomic shim
+// (package vatomic calls Point before it), and - when AfterUnlock is set - the
+// instant after every Unlock / RUnlock (so that what a call still does after
+// leaving its critical section can be overtaken by other threads). A call counts as started at its first
 // scheduling point (see CallStart). Exactly one virtual thread runs at a time; a thread runs
 // from one scheduling point to the next without interruption. Writer preference
 // of Go's RWMutex is modelled: a pending writer blocks new readers.
@@ -60,7 +63,28 @@ const (
 	ptLockAcquire
 	ptRLockAcquire
 	ptMutexAcquire
+	ptFree // always enabled: atomic operation, after an unlock
 )
+
+// AfterUnlock makes the instant after every Unlock/RUnlock a scheduling point. Set by the
+// harness before Run (never while a run is active).
+var AfterUnlock bool
+
+// Point is a scheduling point that is always enabled. The sync/atomic shim calls it before
+// every atomic operation.
+func Point() {
+	s := active
+	if s == nil || s.cur == nil || s.abort {
+		return
+	}
+	s.yield(ptFree, nil, nil)
+}
+
+func afterUnlock() {
+	if AfterUnlock {
+		Point()
+	}
+}
 
 func (m *RWMutex) Lock() {
 	s := active
@@ -93,6 +117,7 @@ func (m *RWMutex) Unlock() {
 		panic("vsync: Unlock of unlocked RWMutex")
 	}
 	m.w = false
+	afterUnlock()
 }
 
 func (m *RWMutex) RLock() {
@@ -116,6 +141,7 @@ func (m *RWMutex) RUnlock() {
 		panic("vsync: RUnlock of unlocked RWMutex")
 	}
 	m.r--
+	afterUnlock()
 }
 
 // TryLock mirrors sync.RWMutex.TryLock (no scheduling point).
@@ -165,6 +191,7 @@ func (m *Mutex) Unlock() {
 		panic("vsync: Unlock of unlocked Mutex")
 	}
 	m.locked = false
+	afterUnlock()
 }
 
 // TryLock mirrors sync.Mutex.TryLock.
@@ -387,6 +414,8 @@ func pointName(p point) string {
 		return "RLock (writer active or pending)"
 	case ptMutexAcquire:
 		return "Mutex.Lock"
+	case ptFree:
+		return "atomic operation / after unlock"
 	}
 	return "?"
 }
